@@ -83,7 +83,7 @@ def gen(tier, rng):
         yield base, {"kind": "unsplit"}
         for segs, kind in splits_for(rng, stream, tier):
             first = segs[0] if len(segs) == 1 else None
-            yield base + " seg=%s gap=1" % ",".join(str(x) for x in segs), {"kind": kind}
+            yield segcase(base, segs), {"kind": kind}
     # a streamed body (Content-Length > 1024) that the application does not read to its end, with pipelined requests
     # behind it: what is left of the body is discarded by the library, and where it stops must not depend on how much of
     # the following requests had already arrived
@@ -107,9 +107,9 @@ def gen(tier, rng):
         cuts = [[h], [h + 1], [h + size // 2], [b1 - 1], [b1], [b1 + 1], [b1 + 10], [1024], [1023], [h, size // 2, size - size // 2]]
         for c in cuts:
             if all(0 < x for x in c) and sum(c) < n:
-                yield base + " seg=%s gap=1" % ",".join(str(x) for x in c), {"kind": "unread-body-cut", "family": "unread-streamed-body"}
+                yield segcase(base, c), {"kind": "unread-body-cut", "family": "unread-streamed-body"}
         for segs, kind in splits_for(rng, stream, tier)[-5:]:
-            yield base + " seg=%s gap=1" % ",".join(str(x) for x in segs), {"kind": kind, "family": "unread-streamed-body"}
+            yield segcase(base, segs), {"kind": kind, "family": "unread-streamed-body"}
     # a protocol upgrade: everything behind the head belongs to the new protocol, whether it arrived together with the
     # head (and sits in the connection's read buffer) or later
     for i in range(6 if tier == "quick" else 60):
@@ -130,16 +130,16 @@ def gen(tier, rng):
         n = len(stream)
         for c in ([h0], [h0 - 1], [h0 + 1], [h0 + 3], [h0 - 2, 2], [h0, 2], [n - 1]):
             if all(x > 0 for x in c) and sum(c) < n:
-                yield base + " seg=%s gap=1" % ",".join(str(x) for x in c), {"kind": "upgrade-cut", "family": "upgrade"}
+                yield segcase(base, c), {"kind": "upgrade-cut", "family": "upgrade"}
         for segs, kind in splits_for(rng, stream, tier)[-4:]:
-            yield base + " seg=%s gap=1" % ",".join(str(x) for x in segs), {"kind": kind, "family": "upgrade"}
+            yield segcase(base, segs), {"kind": kind, "family": "upgrade"}
     # TCP sample
     for i in range(nb, nb + 6):
         stream, acts = base_conv(rng, i)
         base = cv_line(stream, acts, transport="t")
         yield base, {"kind": "unsplit"}
         for segs, kind in splits_for(rng, stream, tier)[:6]:
-            yield base + " seg=%s gap=1" % ",".join(str(x) for x in segs), {"kind": kind + "-tcp"}
+            yield segcase(base, segs), {"kind": kind + "-tcp"}
     # known finding D11: a chunk whose payload is not followed by CR LF
     torn = b"POST /torn HTTP/1.1\r\nTransfer-Encoding: chunked\r\n\r\n5\r\nhelloXX"
     base = cv_line(torn, ["*@64/R200:6f6b:1"])
@@ -147,8 +147,17 @@ def gen(tier, rng):
     yield base + " seg=%d gap=2" % (len(torn) - 5), {"kind": "torn-chunk"}
 
 
+def segcase(base, segs):
+    """the case line for one segmentation; the time allowed grows with the number of pauses (thousands of tiny segments of
+    a large stream take seconds to send: that is not a hang)"""
+    line = base + " seg=%s gap=1" % ",".join(str(x) for x in segs)
+    if len(segs) > 500:
+        line += " limit=%d" % (4000 + 5 * len(segs))
+    return line
+
+
 def strip_seg(case):
-    return re.sub(r" seg=\S+| gap=\S+", "", case)
+    return re.sub(r" seg=\S+| gap=\S+| limit=\S+", "", case)
 
 
 def oracle(case, obs):
